@@ -20,7 +20,7 @@ Spans == {"zero", "ms7", "subsec", "s1", "day", "monthend", "leap", "yearend", "
 OptShapes == {"omitted", "empty", "partial"}
 Dirs == {"up", "down", "left", "right"}
 Algs == {"overlap", "simple", "none"}
-Bounds == {"none", "max"}
+Bounds == {"none", "max", "zero"}
 Clusters == {"small", "c150", "c400"}
 Desc == [count : Counts, ttype : TTypes, arr : Arrs, span : Spans, opts : OptShapes, dir : Dirs, alg : Algs,
          bounds : Bounds, ticks : BOOLEAN, cluster : Clusters]
